@@ -1,6 +1,7 @@
 package sim
 
 import (
+	"sort"
 	"container/heap"
 	"fmt"
 	"os"
@@ -48,6 +49,36 @@ type AppScript struct {
 	ReadBufs []int   // read-buffer sizes, used cyclically
 	Pauses   []Pause // reader stalls
 	Backlog  int     // writer keeps WaitSnd below this many segments (0 = snd_wnd, the session rule)
+	// VecSeed != 0 (sessions only): write i is passed to WriteBuffers as 1..4
+	// buffers (some possibly empty) cut at positions that are a pure function
+	// of (VecSeed, i); 0 = plain Write.
+	VecSeed uint64
+}
+
+// VecCuts returns the buffer sizes write i of n bytes is cut into (nil = plain Write).
+func (a *AppScript) VecCuts(i, n int) []int {
+	if a.VecSeed == 0 {
+		return nil
+	}
+	h := mix64(a.VecSeed ^ uint64(i)*0x9e3779b97f4a7c15)
+	k := 1 + int(h%4)
+	if k == 1 && h&16 == 0 {
+		return nil
+	}
+	cuts := make([]int, 0, k+1)
+	for j := 1; j < k; j++ {
+		h = mix64(h + uint64(j))
+		cuts = append(cuts, int(h%uint64(n+1)))
+	}
+	sort.Ints(cuts)
+	cuts = append(cuts, n)
+	sizes := make([]int, 0, k)
+	prev := 0
+	for _, c := range cuts {
+		sizes = append(sizes, c-prev)
+		prev = c
+	}
+	return sizes
 }
 
 // TimedOp is an action the check performs at a virtual time.
